@@ -539,6 +539,15 @@ func (fr *Frame) execInstr(in ssa.Instruction) {
 	case *ssa.ChangeInterface:
 		fr.env[in] = fr.val(in.X)
 	case *ssa.ChangeType:
+		if _, fromTP := types.Unalias(in.X.Type()).(*types.TypeParam); fromTP {
+			if _, toIface := types.Unalias(in.Type()).Underlying().(*types.Interface); toIface {
+				if _, toTP := types.Unalias(in.Type()).(*types.TypeParam); !toTP {
+					// go/ssa emits changetype for "any(x)" with x of type-parameter type: a boxing conversion here
+					fr.env[in] = TV(fr.makeInterface(fr.val(in.X), in.X.Type()))
+					break
+				}
+			}
+		}
 		fr.env[in] = fr.convertRepr(fr.val(in.X), in.X.Type(), in.Type())
 	case *ssa.Convert:
 		fr.execConvert(in)
